@@ -39,15 +39,16 @@ def digitsBytes (ds : List Digit) : Bytes := ds.map digitByte
 /-- value of a digit string read left to right. -/
 def natOf (ds : List Digit) : Nat := ds.foldl (fun acc d => acc * 10 + d.val) 0
 
-/-- groups of three, on the reversed digit string; `k` digits already written in this group. -/
-def groupRev (g : UInt8) : Bytes → Nat → Bytes
-  | [], _ => []
-  | a :: r, k => if k = 3 then g :: a :: groupRev g r 1 else a :: groupRev g r (k + 1)
+/-- groups of three, on the reversed digit string: a group mark after every third digit that
+    is followed by another digit. -/
+def groupRev (g : UInt8) : Bytes → Bytes
+  | a :: b :: c :: t => if t.isEmpty then [a, b, c] else a :: b :: c :: g :: groupRev g t
+  | l => l
 
 def renderInt (group : Option UInt8) (ds : List Digit) : Bytes :=
   match group with
   | none => digitsBytes ds
-  | some g => (groupRev g (digitsBytes ds).reverse 0).reverse
+  | some g => (groupRev g (digitsBytes ds).reverse).reverse
 
 def renderFrac (mark : Option UInt8) (frac : List Digit) : Bytes :=
   match mark with
